@@ -34,6 +34,7 @@ NewConn(requirepass) ==
    calls |-> <<>>,         \* handler calls since the last reply
    wbuf |-> <<>>,          \* bytes of a reply frame written so far (a frame may take several writes)
    quit |-> FALSE, closed |-> FALSE, returned |-> FALSE, lost |-> FALSE,
+   wild |-> FALSE,         \* the client sends arbitrary bytes (C07 offender): replies are only required to be RESP frames
    eos |-> "none",         \* "none" | "half" | "full": how the client ended the stream
    wfail |-> FALSE,        \* a write failed (client gone)
    dropped |-> FALSE,      \* the server answered a protocol error by closing
@@ -155,7 +156,8 @@ Live(cs) == cs.opened /\ ~cs.returned
 Cur(cs) == cs.reqs[cs.nrep + 1]
 HasCur(cs) == cs.nrep < cs.nreq /\ ~cs.quit /\ ~cs.dropped
 
-OnReqs(cs, rs, ends) == IF cs.opened THEN [cs EXCEPT !.reqs = cs.reqs \o rs, !.base = Len(cs.reqs), !.ends = ends, !.upto = 0] ELSE Reject
+OnReqs(cs, rs, ends) == IF cs.opened THEN [cs EXCEPT !.reqs = cs.reqs \o rs, !.base = Len(cs.reqs), !.ends = ends, !.upto = 0,
+                                                    !.wild = cs.wild \/ \E i \in 1..Len(rs) : rs[i].cls = "wild"] ELSE Reject
 
 \* bytes handed to the transport; "complete" = requests of this batch delivered completely so far
 OnSend(cs, upto, complete) == IF ~cs.opened THEN Reject ELSE [cs EXCEPT !.nreq = cs.base + complete, !.upto = upto]
@@ -170,12 +172,14 @@ DropOK(cs) == LET i == cs.nrep + 1 IN
 \* the server asks the transport for bytes that were not sent yet (C03):
 \* every fully received request has been answered, nothing half-written, no call pending
 OnBlock(cs) ==
+  IF cs.wild THEN (IF Live(cs) /\ ~cs.closed THEN cs ELSE Reject) ELSE
   IF Live(cs) /\ ~cs.closed /\ cs.calls = <<>> /\ cs.wbuf = <<>> /\ cs.nrep = cs.nreq /\ ~cs.quit /\ ~cs.dropped
   THEN cs ELSE Reject
 
 \* a handler call: only for a completely received request (C11), only when authorized (C08),
 \* seeing this connection's own state (C13), while registered (C15)
 OnCall(cs, e) ==
+  IF cs.wild THEN (IF Live(cs) /\ ~cs.closed /\ (cs.auth \/ e.m = "Auth") THEN cs ELSE Reject) ELSE
   IF /\ Live(cs) /\ ~cs.closed /\ HasCur(cs)
      /\ (cs.auth \/ e.m = "Auth")
      /\ e.db = cs.db /\ e.auth = cs.auth /\ e.ud = cs.ud /\ e.inreg
@@ -187,6 +191,7 @@ FirstKey(e) == IF e.a = <<>> THEN ""
                ELSE IF "l" \in DOMAIN e.a[1] /\ e.a[1].l # <<>> THEN e.a[1].l[1].s ELSE ""
 
 OnCallRet(cs, e) ==
+  IF cs.wild THEN cs ELSE
   IF cs.calls = <<>> \/ HasRes(cs.calls[Len(cs.calls)]) \/ cs.calls[Len(cs.calls)].m # e.m THEN Reject
   ELSE LET n == Len(cs.calls)
            c == cs.calls[n]
@@ -220,6 +225,13 @@ OnReply(cs, v, cfg) ==
 
 \* bytes written by the server (C04: they must assemble into exactly one RESP frame per reply)
 OnWrite(cs, b, failed, cfg) ==
+  IF cs.wild THEN      \* arbitrary input: whatever is written must still be a sequence of RESP frames (C04), nothing else is judged
+    (IF ~Live(cs) \/ cs.closed THEN Reject
+     ELSE IF failed THEN cs
+     ELSE LET d == DecStream(cs.wbuf \o b) IN
+          IF d.st = "complete" THEN [cs EXCEPT !.wbuf = <<>>]
+          ELSE IF d.st = "trunc" THEN [cs EXCEPT !.wbuf = SubSeq(cs.wbuf \o b, d.from, Len(cs.wbuf \o b))]
+          ELSE Reject) ELSE
   IF ~Live(cs) \/ cs.closed \/ cs.quit THEN Reject
   ELSE IF failed THEN                                     \* the client is gone: the attempt counts, content cannot be judged
     (IF HasCur(cs) THEN [cs EXCEPT !.nrep = cs.nrep + 1, !.calls = <<>>, !.wbuf = <<>>, !.wfail = TRUE,
@@ -235,6 +247,7 @@ OnEos(cs, how) == IF ~cs.opened THEN Reject ELSE [cs EXCEPT !.eos = how]
 \* the server closes the socket: legitimate after QUIT, after the client ended the stream, after a
 \* protocol error it chose not to answer, or when a write failed
 OnClose(cs) ==
+  IF cs.wild THEN (IF Live(cs) /\ ~cs.closed THEN [cs EXCEPT !.closed = TRUE] ELSE Reject) ELSE
   IF ~Live(cs) \/ cs.closed THEN Reject
   ELSE IF cs.calls # <<>> /\ ~(\E i \in 1..Len(cs.calls) : ResFail(cs.calls[i])) THEN Reject
   ELSE IF cs.quit \/ cs.eos # "none" \/ cs.wfail THEN [cs EXCEPT !.closed = TRUE]
@@ -247,6 +260,7 @@ OnReturn(cs, e) ==
   IF ~Live(cs) THEN Reject
   ELSE IF e.panic # "" THEN Reject                         \* a panic escaped the loop (C07)
   ELSE IF ~cs.closed \/ ~e.closed \/ e.inreg THEN Reject
+  ELSE IF cs.wild THEN [cs EXCEPT !.returned = TRUE]
   ELSE IF cs.open # <<>> THEN Reject
   ELSE IF cs.calls # <<>> THEN Reject
   ELSE IF ~(cs.quit \/ cs.dropped \/ cs.wfail \/ cs.eos = "full" \/ cs.nrep = cs.nreq) THEN Reject   \* every complete request answered
